@@ -162,6 +162,11 @@ func (r *Run) trySend(ch *ChanV, v Value) bool {
 	if ch.closed {
 		panic(goPanic{kind: "close", msg: "send on closed channel"})
 	}
+	// Both directions synchronise (Go memory model: the k-th receive on a channel
+	// of capacity C happens before the (k+C)-th send completes; channel-based
+	// mutexes rely on it). Per channel rather than per slot: an
+	// over-approximation of happens-before, i.e. no false race reports.
+	r.raceAcquire(r.cur, ch)
 	r.raceRelease(r.cur, ch)
 	if len(ch.recvq) > 0 {
 		sg := ch.recvq[0]
@@ -180,6 +185,7 @@ func (r *Run) tryRecv(ch *ChanV) (Value, bool, bool) {
 		return nil, false, false
 	}
 	r.raceAcquire(r.cur, ch)
+	r.raceRelease(r.cur, ch)
 	if len(ch.buf) > 0 {
 		v := ch.buf[0]
 		ch.buf = append(ch.buf[:0:0], ch.buf[1:]...)
